@@ -1728,3 +1728,42 @@ Example ex_skip_counts :
      false 8%Z LReject false 8%Z LPartial in
   st_intr (tp_run (tp_compile w) [KPRH]) = Some (mkIntr 3 KDrop 500 []).
 Proof. vm_compute. auto. Qed.
+
+(* ---------------------------------------------------------------------------------- *)
+(* the status of a redirect interruption is always one of 301, 302, 303, 307            *)
+(* ---------------------------------------------------------------------------------- *)
+
+Lemma intr_of_redirect_status r i :
+  tp_intr_of r = Some i -> i_kind i = KRedirect -> In (i_status i) tp_redirect_codes.
+Proof.
+  intros H K. destruct (status_mapping_holds r i H) as [_ M]. rewrite K in M. apply M.
+Qed.
+
+Lemma first_intr_redirect_status m t i :
+  tp_first_intr m t = Some i -> i_kind i = KRedirect -> In (i_status i) tp_redirect_codes.
+Proof.
+  induction t as [|e t IH]; cbn [tp_first_intr]; [discriminate|].
+  destruct (tp_ev_intr m e) as [j|] eqn:E; [|exact IH].
+  intros H K. inversion H; subst j. clear H.
+  destruct e as [p|p r st|n]; cbn [tp_ev_intr] in E; try discriminate.
+  - destruct st as [| |m']; try discriminate.
+    destruct m, m'; try discriminate; apply (intr_of_redirect_status r i E K).
+  - destruct m; try discriminate. inversion E; subst i. discriminate.
+Qed.
+
+(* whatever the configuration (status on the rule, inherited from SecDefaultAction, any value) and
+   whatever the calls: a recorded or would-be redirect interruption carries 301, 302, 303 or 307 *)
+Lemma redirect_status_whitelisted_holds c ks i :
+  (st_intr (tp_run c ks) = Some i \/ st_dintr (tp_run c ks) = Some i) -> i_kind i = KRedirect ->
+  In (i_status i) tp_redirect_codes.
+Proof.
+  intros [H|H] K.
+  - rewrite first_disruptive_holds in H. apply (first_intr_redirect_status _ _ _ H K).
+  - rewrite would_be_first_holds in H. apply (first_intr_redirect_status _ _ _ H K).
+Qed.
+
+(* the edges of the whitelist *)
+Example ex_redirect_edges :
+  map tp_redirect_status [0; 200; 300; 301; 302; 303; 304; 305; 306; 307; 308; 401; 999] =
+  [302; 302; 302; 301; 302; 303; 302; 302; 302; 307; 302; 302; 302].
+Proof. reflexivity. Qed.
